@@ -215,6 +215,20 @@ def narrow_corpus(ctx):
             one_case(ctx, pred, ref, metric, thr, "corpus.narrow-dtype")
 
 
+def assd_above_one_corpus(ctx):
+    """ASSD as matching metric with thresholds above 1: a reference whose best single candidate is a few voxels off (ASSD about
+    2) and a thin fragment that touches the reference but reaches far outside (merging it makes the distance worse)"""
+    for shift, thr in ((4, (5, 1)), (3, (4, 1)), (4, (3, 1))):
+        ref = np.zeros((16, 44), np.uint8)
+        pred = np.zeros((16, 44), np.uint8)
+        ref[3:13, 3:13] = 1
+        pred[3:13, 3 + shift:13 + shift] = 1
+        pred[7, 1:3 + shift] = 2           # a line: two or so voxels inside the reference ...
+        pred[7, 13 + shift:40] = 2         # ... and many far outside
+        ctx.count("assd_scores_above_one")
+        one_case(ctx, pred, ref, "ASSD", thr, "corpus.assd-above-one")
+
+
 def big_and_small_corpus(ctx):
     """reference with a large id covered by a large-id fragment (the better one) and a small-id fragment that alone still
     meets the threshold: pair codes beyond 2^32 next to small ones"""
@@ -401,6 +415,7 @@ def run(ctx):
     singleton_corpus(ctx)
     narrow_corpus(ctx)
     big_and_small_corpus(ctx)
+    assd_above_one_corpus(ctx)
     rng = ctx.rng
     for i in range(ctx.scale(6, 30)):
         p, r = big_id_chain(rng)
